@@ -251,19 +251,39 @@ def run(ch, tier):
     for t_ in sp.trans:
         t_.sends = quiet(t_.sends)
     # v starts beyond the small-int cache, so that identity and equality of integers differ
-    sc = build_api(sp, preamble='v = 1000\nw = []')
+    sc = build_api(sp, preamble='v = 1000\nw = []\nu = [[]]\nbox = P.newbox()')
     st = ch.s('scen')
     events = (sorted({t.event for t in sp.trans if t.event}) or ['ea']) + ['zz']
     library = {}        # scenario name -> list of primitive action lists (its given/when steps)
     scenarios = []
     lines = ['Feature: generated', '']
+    background = []
+    if st.flag(1, 3):
+        # a Background: its steps run before the steps of every scenario (and are not part of any scenario)
+        lines.append('  Background:')
+        bfirst = True
+        for _ in range(st.int(1, 2)):
+            tl, prims, k = gen_action(st, sp, events, set(), allow_compound=False)
+            lines.append('    %s %s' % ('Given' if bfirst else 'And', tl[0]))
+            lines.extend('    ' + x for x in tl[1:])
+            bfirst = False
+            background.append(prims)
+        lines.append('')
+        res.stats['features_with_background'] += 1
     nscen = st.int(3, 6)
     for si in range(nscen):
         name = 'scenario %d' % si
         lines.append('  Scenario: %s' % name)
         plain = Plain(sc)
+        bg_steps = []
+        try:
+            for prims in background:
+                plain.act(prims, 'given', library)
+                bg_steps.append(('given', 'background step', 'passed'))    # the report lists them with every scenario
+        except (sx.NonDeterminismError, sx.ConflictingTransitionsError):
+            raise Abandon('chart is non-deterministic under this scenario (not a BDD verdict question)')
         plain.act([], 'given', library) if False else None
-        steps = []          # (type, text lines, expected status or None)
+        steps = list(bg_steps)          # (type, text lines, expected status or None)
         mine = []
         first = True
         used_kinds = []
